@@ -140,6 +140,25 @@ def _recursive_stub(*a, **k):
     raise PathAbort('recursive-call', 'bisect called recursively on the increasing-direction contract case')
 
 
+FRAME_REPLAY = '''
+from pfhedge._utils.bisect import bisect
+bad = []
+for dtype in (torch.float64, torch.float32):
+    tg = torch.tensor([0.5, 2.0, 7.0], dtype=dtype); lo = torch.full((3,), -3.0, dtype=dtype); up = torch.full((3,), 3.0, dtype=dtype)
+    keep = [t.clone() for t in (tg, lo, up)]
+    fn = lambda x: x * x * x + x
+    r1 = bisect(fn, tg, lo, up, precision=1e-4)
+    for nm, t, k in zip(("target", "lower", "upper"), (tg, lo, up), keep):
+        if not torch.equal(t, k): bad.append((str(dtype), nm + " was modified in place"))
+    try:
+        r2 = bisect(fn, tg, lo, up, precision=1e-4)
+        if not torch.allclose(r1, r2): bad.append((str(dtype), "second solve with the same bracket differs"))
+    except Exception as e:
+        bad.append((str(dtype), "second solve raises " + type(e).__name__))
+result = {"got": [str(b) for b in bad], "ref": []}
+'''
+
+
 def bisect_loop_ob():
     holder = {}
 
@@ -223,6 +242,16 @@ def bisect_loop_ob():
                                    witness={'vc': label}, sample=sample, replay=_replay_bisect())
         if not (seen_exit and seen_iter and seen_err):
             return Verdict('unknown', 'engine', time.time() - t0, 'expected exit, iteration and iteration-budget paths; got %s' % sample['paths'], sample=sample)
+        # frame: target / lower / upper handed in by the caller (full-shape tensors) are not written - neither before the loop,
+        # nor by an arbitrary iteration (names only mutated in place keep the origin of the object they denoted at loop entry), nor after it
+        for p in paths:
+            for (stg, what) in p.writes:
+                nvc += 1
+                if stg.origin != 'fresh' and not stg.origin.startswith('leaf:'):
+                    rr = real_exec(FRAME_REPLAY, {}, timeout=300)
+                    conf = not (rr.get('ok') and rr['result']['got'] == [])
+                    return Verdict('refuted', 'alias-analysis', time.time() - t0, 'bisect writes in place (%s) into a tensor of the caller (%s): a second solve with the same bracket is wrong' % (what, stg.origin),
+                                   witness={'written': stg.origin, 'op': what}, sample=sample, replay={'real': rr, 'confirmed': conf})
         sample['n_vcs'] = nvc
         return Verdict('proved', 'z3 (UF+LRA, quantified invariant)', time.time() - t0, '%d paths, %d VCs' % (len(paths), nvc), sample=sample)
     return Obligation('C19/bisect/loop[increasing]', 'inv-init/inv-preserve/decreases/post', 'pfhedge._utils.bisect.bisect', check, [PROP],
